@@ -76,16 +76,57 @@ func (in *Interp) jsonUnmarshal1(data Slice, tgt Iface) Value {
 	if data.Seq == nil && len(data.A) == 0 {
 		return in.makeErrorString(mkStr("json: unexpected end of JSON input"))
 	}
-	// arbitrary bytes: either a syntax/type error, or some well-formed document of the target's shape
+	return in.jsonArbitrary(data, dst, pt.Elem(), false)
+}
+
+// jsonClass: syntactic class of arbitrary bytes as an uninterpreted function of their content:
+// 0 = exactly one JSON value (plus white space), 1 = one JSON value followed by other bytes, 2 = anything else.
+func (in *Interp) jsonClass(data Slice) Term {
+	if data.Seq == nil || data.Seq.Blob != nil {
+		if data.Seq != nil {
+			return mkInt(0)
+		}
+		t := in.bytesToString(data)
+		if t.C && t.Str == "" {
+			return mkInt(2)
+		}
+		data = Slice{Seq: &SeqObj{T: symOrConstStr(t)}}
+	}
+	if !in.jsonClassDeclared {
+		in.sess.Cmd("(declare-fun jsonclass (String) Int)")
+		// the few facts about real JSON syntax the model needs: the empty input is no document, {} is one, {} followed by x is one with trailing bytes
+		in.sess.Cmd(`(assert (and (= (jsonclass "") 2) (= (jsonclass "{}") 0) (= (jsonclass "{} x") 1) (= (jsonclass "x") 2)))`)
+		in.jsonClassDeclared = true
+	}
+	ts := data.Seq.T.smt()
+	c := symInt("(jsonclass " + ts + ")")
+	in.assume(tAnd(intCmp(">=", c, mkInt(0)), intCmp("<=", c, mkInt(2))))
+	// for native replay prefer a concrete representative of the class
+	in.hints = append(in.hints, fmt.Sprintf(`(and (=> (= %s 0) (= %s "{}")) (=> (= %s 1) (= %s "{} x")) (=> (= %s 2) (= %s "x")))`, c.E, ts, c.E, ts, c.E, ts))
+	return c
+}
+
+// jsonArbitrary models decoding bytes the model cannot see into. stream=false: json.Unmarshal (the whole input must be
+// one value); stream=true: Decoder.Decode (reads the first value, ignores what follows).
+func (in *Interp) jsonArbitrary(data Slice, dst *Value, et types.Type, stream bool) Value {
+	cls := in.jsonClass(data)
+	wellFormed := tEq(cls, mkInt(0))
+	if stream {
+		wellFormed = tOr(wellFormed, tEq(cls, mkInt(1)))
+	}
+	if !in.branch(wellFormed) {
+		return in.makeErrorString(mkStr("json: invalid document")) // syntax errors leave the target untouched
+	}
+	// syntactically fine: either it fits the target, or a type error is reported after a partial fill
 	switch in.choose([]Term{in.freshBool("json.arbitrary.ok"), mkBool(true)}) {
 	case 0:
-		*dst = in.havoc(pt.Elem(), "jsondoc", 0)
+		*dst = in.havoc(et, "jsondoc", 0)
 		return Iface{}
 	}
 	if in.branch(in.freshBool("json.arbitrary.partial")) {
-		*dst = in.havoc(pt.Elem(), "jsonpartial", 0)
+		*dst = in.havoc(et, "jsonpartial", 0)
 	}
-	return in.makeErrorString(mkStr("json: invalid or ill-typed document"))
+	return in.makeErrorString(mkStr("json: ill-typed document"))
 }
 
 func iJSONNewEncoder(in *Interp, fn *ssa.Function, a []Value) Value {
@@ -122,12 +163,43 @@ func iJSONDecode(in *Interp, fn *ssa.Function, a []Value) Value {
 	r := dec.Fields["r"].(Iface)
 	tgt := a[1].(Iface)
 	if r.T != nil {
-		if m := in.L.prog.LookupMethod(r.T, nil, "VerifDoc"); m != nil {
+		if sel := in.L.prog.MethodSets.MethodSet(r.T).Lookup(nil, "VerifDoc"); sel != nil {
+			m := in.L.prog.MethodValue(sel)
 			doc := in.call(m, []Value{r.V}).(Slice)
 			return in.decodeResult(in.jsonUnmarshal(doc, tgt), doc)
 		}
+		// a *bytes.Reader over known bytes: the stream's first value is decoded, trailing bytes are not looked at
+		if types.TypeString(r.T, nil) == "*bytes.Reader" {
+			if p, ok := r.V.(*Value); ok && p != nil {
+				if st, ok := (*p).(Struct); ok && len(st) > 0 {
+					if bs, ok := st[0].(Slice); ok {
+						return in.jsonStream(bs, tgt)
+					}
+				}
+			}
+		}
 	}
 	return in.jsonUnmarshal(Slice{Seq: &SeqObj{T: in.freshStr("body"), Len: mkBV(64, 1)}}, tgt)
+}
+
+func (in *Interp) jsonStream(data Slice, tgt Iface) Value {
+	if data.Seq != nil && data.Seq.Blob != nil {
+		return in.jsonUnmarshal(data, tgt)
+	}
+	pt, ok := tgt.T.(*types.Pointer)
+	dst, _ := tgt.V.(*Value)
+	if !ok || dst == nil {
+		return in.makeErrorString(mkStr("json: Decode(non-pointer)"))
+	}
+	if data.Seq == nil && len(data.A) == 0 {
+		g := in.L.prog.ImportedPackage("io").Var("EOF")
+		return copyVal(*in.globalAddr(g))
+	}
+	r := in.jsonArbitrary(data, dst, pt.Elem(), true)
+	if !isNilValue(r) {
+		pGhostLog(in, nil, []Value{mkStr("json.decode.failed")})
+	}
+	return r
 }
 
 // decodeResult: Decoder.Decode on an empty (or whitespace-only) stream returns exactly io.EOF; other undecodable
@@ -149,11 +221,11 @@ func (in *Interp) decodeResult(err Value, doc Slice) Value {
 // ---------- json kinds ----------
 
 type jfield struct {
-	key    string
-	idx    int
-	typ    types.Type
-	asStr  bool
-	omit   bool
+	key   string
+	idx   int
+	typ   types.Type
+	asStr bool
+	omit  bool
 }
 
 func jsonFields(st *types.Struct) ([]jfield, string) {
